@@ -6,6 +6,7 @@ import WP.Model.DynArray
 import WP.Model.PinoOffset
 import WP.Model.Sdk
 import WP.Model.TransferFee
+import WP.Model.Setup
 import WP.Gen.AnchorSpecs
 /-
   Line-protocol driver: one operation per line on stdin, one canonical result line on stdout.
@@ -132,6 +133,35 @@ def stepPure (toks : List String) : Option String :=
                     authMode perm ts fee c with
         | .ok (p, nt, t) => s!"ok {p.feeRate} {p.protoRate} {p.price} {p.tick} {if nt then 1 else 0} {t}"
         | .error e => "err " ++ e)
+  | ["xtarr", ts, start, pre, kind, idem] => do
+      let ts ← ts.toNat?; let start ← start.toInt?; let pre ← pre.toNat?; let kind ← b01 kind; let idem ← b01 idem
+      let valid := validStartTick start ts
+      -- a pre-existing array can only have been created for a valid start index
+      let preT : TarrPre := if pre = 3 then .foreign else if pre = 1 && valid then .fixed else if pre = 2 && valid then .dynamic else .nothing
+      pure (match initializeTickArrayIx kind idem preT start ts with
+        | .ok .createdFixed => "ok fixed 9988"
+        | .ok .createdDynamic => "ok dynamic 148"
+        | .ok .existing => s!"ok existing {pre}"
+        | .error e => "err " ++ e)
+  | ["xini", "cfg", admin, proto] => do
+      let admin ← b01 admin; let proto ← proto.toNat?
+      pure (match initializeConfigIx admin proto with | .ok p => s!"ok {p}" | .error e => "err " ++ e)
+  | ["xini", "tier", auth, pre, ts, fee] => do
+      let auth ← auth.toNat?; let pre ← b01 pre; let ts ← ts.toNat?; let fee ← fee.toNat?
+      pure (match initializeFeeTierIx auth pre ts fee with | .ok (a, f) => s!"ok {a} {f}" | .error e => "err " ++ e)
+  | ["xini", "atier", auth, pre, idx, ts, fee, fp, dp, rf, cf, mv, gs, th] => do
+      let auth ← auth.toNat?; let pre ← b01 pre; let idx ← idx.toNat?; let ts ← ts.toNat?; let fee ← fee.toNat?
+      let fp ← fp.toNat?; let dp ← dp.toNat?; let rf ← rf.toNat?; let cf ← cf.toNat?
+      let mv ← mv.toNat?; let gs ← gs.toNat?; let th ← th.toNat?
+      let c : AfConstants := { filterPeriod := fp, decayPeriod := dp, reductionFactor := rf, controlFactor := cf, maxVolAcc := mv,
+                               groupSize := gs, majorSwapThresholdTicks := th }
+      pure (match initializeAdaptiveFeeTierIx auth pre idx ts fee c with | .ok (a, f) => s!"ok {a} {f}" | .error e => "err " ++ e)
+  | ["xini", "rew", ver, auth, idx, ninit, p22, native, freeze, tlv, badge] => do
+      let ver ← ver.toNat?; let auth ← auth.toNat?; let idx ← idx.toNat?; let ninit ← ninit.toNat?
+      let p22 ← b01 p22; let native ← b01 native; let freeze ← b01 freeze; let badge ← badge.toNat?
+      let tl ← (if tlv == "-" then some [] else parseHex tlv.toList)
+      let m : MintIn := { token2022 := p22, native := native, freeze := freeze, tlv := tl, badge := badge }
+      pure (match initializeRewardIx (ver == 2) auth (min idx 255) ninit m with | .ok i => s!"ok {i}" | .error e => "err " ++ e)
   | ["mdr", n0, n1, d, up] => do
       let n0 ← n0.toNat?; let n1 ← n1.toNat?; let d ← d.toNat?; let up ← b01 up
       pure (showR ((checkedMulDivRoundUpIf n0 n1 d up).map toString))
